@@ -235,6 +235,7 @@ func (r *Run) Sample(v any) {
 }
 
 func (r *Run) Inconclusive(why string) {
+	r.touch() // a case that ended (even without a verdict) is progress
 	r.mu.Lock()
 	r.inconclusive++
 	if r.inconclusive <= 12 {
